@@ -2,7 +2,7 @@
     Part A: for arbitrary bytes nothing panics and [data_start <= len].
     Part B: every line of the grammar is parsed into its names and arguments. *)
 From KV Require Import Bytes PresentLine.
-From Coq Require Import ZifyBool ZifyNat ZifyN.
+From Coq Require Import ZifyBool ZifyNat ZifyN Sorted.
 Open Scope N_scope.
 
 (** ---- slices ---- *)
@@ -460,3 +460,272 @@ Proof.
     + apply Hnoskip. right. right. reflexivity.
 Qed.
 End Words.
+
+(** ---- stage 2: the iterators on the vector of a list of groups ---- *)
+Definition name_lt (g1 g2 : gs) : Prop := (fst (fst g1) < fst (fst g2))%nat.
+
+Fixpoint spans_of (k : nat) (gl : list gs) : list span :=
+  match gl with
+  | [] => []
+  | g :: r => (k, S (length (snd g))) :: spans_of (k + S (length (snd g))) r
+  end.
+
+Lemma span_eqb_refl s : span_eqb s s = true.
+Proof. unfold span_eqb. rewrite !Nat.eqb_refl. reflexivity. Qed.
+
+Lemma span_eqb_lt a b : (fst a < fst b)%nat -> span_eqb b a = false.
+Proof. intros H. unfold span_eqb. destruct (Nat.eqb_spec (fst b) (fst a)); [lia|reflexivity]. Qed.
+
+Lemma iter_scan_args n args : forall tl idx,
+  iter_scan n (map (from_name_and_arg n) args ++ tl) idx = iter_scan n tl (idx + length args).
+Proof.
+  induction args as [|a args IH]; intros tl idx; cbn [map app length].
+  - rewrite Nat.add_0_r. reflexivity.
+  - cbn [iter_scan pd_name from_name_and_arg]. rewrite span_eqb_refl, IH. f_equal. lia.
+Qed.
+
+Lemma flat1_length g : length (flat1 g) = S (length (snd g)).
+Proof. unfold flat1. cbn [length]. rewrite map_length. reflexivity. Qed.
+
+Lemma flat_cons g r : flat (g :: r) = flat1 g ++ flat r.
+Proof. reflexivity. Qed.
+
+Lemma skipn_app_len {X} (P X0 : list X) k : skipn (length P + k) (P ++ X0) = skipn k X0.
+Proof.
+  rewrite skipn_app. rewrite skipn_all2 by lia. replace (length P + k - length P)%nat with k by lia. reflexivity.
+Qed.
+
+Lemma iter_next_flat P g r exts : StronglySorted name_lt (g :: r) -> exts = P ++ flat (g :: r) ->
+  iter_next exts (length P)
+  = Ok (Some ((length P, S (length (snd g))), (length P + S (length (snd g)))%nat)).
+Proof.
+  intros HS Eexts. destruct g as [n args]. cbn [snd].
+  assert (Hlen : length exts = (length P + S (length args) + length (flat r))%nat).
+  { rewrite Eexts. rewrite flat_cons, !app_length, flat1_length. cbn [snd]. lia. }
+  unfold iter_next. cbv zeta. destruct (Nat.eqb_spec (length P) (length exts)); [lia|].
+  assert (En : nth_error exts (length P) = Some (from_name_and_arg n n)).
+  { rewrite Eexts. rewrite nth_error_app2, Nat.sub_diag by lia. reflexivity. }
+  rewrite En. cbn [pd_name from_name_and_arg].
+  destruct (Nat.ltb_spec (length exts) (length P + 1)); [lia|].
+  assert (Esk : skipn (S (length P)) exts = map (from_name_and_arg n) args ++ flat r).
+  { rewrite Eexts. replace (S (length P)) with (length P + 1)%nat by lia. rewrite skipn_app_len. reflexivity. }
+  rewrite Esk, iter_scan_args.
+  destruct r as [|g2 r2].
+  - cbn [flat concat map iter_scan]. cbn [flat concat map length] in Hlen.
+    destruct (Nat.eqb_spec (length P + length args + 1) (length exts)); [|lia]. cbn [andb negb].
+    destruct (Nat.ltb_spec (length P + length args + 1) (length P)); [lia|].
+    do 3 f_equal; [f_equal|]; lia.
+  - rewrite flat_cons. unfold flat1 at 1. cbn [app iter_scan pd_name from_name_and_arg].
+    inversion HS as [|? ? _ HF]; subst. apply Forall_inv in HF. unfold name_lt in HF. cbn [fst] in HF.
+    rewrite (span_eqb_lt n (fst g2) HF). rewrite andb_false_r.
+    destruct (Nat.ltb_spec (S (length P + length args)) (length P)); [lia|].
+    do 3 f_equal; [f_equal|]; lia.
+Qed.
+
+Lemma iter_all_flat : forall gl P fuel, StronglySorted name_lt gl -> (length gl < fuel)%nat ->
+  iter_all fuel (P ++ flat gl) (length P) = Ok (spans_of (length P) gl).
+Proof.
+  induction gl as [|g r IH]; intros P fuel HS Hf; (destruct fuel as [|fuel]; [cbn [length] in Hf; lia|]); cbn [iter_all].
+  - unfold iter_next. cbn [flat map concat]. rewrite app_nil_r, Nat.eqb_refl. reflexivity.
+  - rewrite (iter_next_flat P g r _ HS eq_refl).
+    assert (E : P ++ flat (g :: r) = (P ++ flat1 g) ++ flat r) by (rewrite flat_cons, app_assoc; reflexivity).
+    assert (El : (length P + S (length (snd g)))%nat = length (P ++ flat1 g)) by (rewrite app_length, flat1_length; reflexivity).
+    rewrite E, El. rewrite IH.
+    + cbn [obind spans_of]. rewrite El. reflexivity.
+    + inversion HS; assumption.
+    + cbn [length] in Hf. lia.
+Qed.
+
+(** names and arguments read back from the spans *)
+Section Decode.
+Variable data : bytes.
+Definition dec (sp : span) : bytes := slice (fst sp) (fst sp + snd sp) data.
+Definition decode (g : gs) : PresentLine.entry := (dec (fst g), map dec (snd g)).
+
+Lemma dec_chk sp : span_ok (length data) sp -> (let '(s, l) := sp in slice_chk s (s + l) data) = Ok (dec sp).
+Proof.
+  destruct sp as [s l]. unfold span_ok, dec. cbn [fst snd]. intros H. apply slice_chk_ok; lia.
+Qed.
+
+Lemma args_loop_flat exts P n args Q : exts = P ++ flat1 (n, args) ++ Q -> Forall (pd_ok (length data)) exts ->
+  forall todo done fuel, args = done ++ todo -> (length todo < fuel)%nat ->
+  args_loop args_end fuel data exts (length P) (S (length args)) (S (length done)) = Ok (map dec todo).
+Proof.
+  intros Eexts HF. induction todo as [|a todo IH]; intros done fuel Ea Hf;
+    (destruct fuel as [|fuel]; [cbn [length] in Hf; lia|]); cbn [args_loop].
+  - rewrite app_nil_r in Ea. subst done. unfold args_end. rewrite Nat.leb_refl. reflexivity.
+  - assert (Hl : length args = (length done + S (length todo))%nat) by (rewrite Ea, app_length; reflexivity).
+    unfold args_end at 1. destruct (Nat.leb_spec (S (length args)) (S (length done))); [lia|].
+    assert (En : nth_error exts (length P + S (length done)) = Some (from_name_and_arg n a)).
+    { rewrite Eexts. rewrite nth_error_app2 by lia. replace (length P + S (length done) - length P)%nat with (S (length done)) by lia.
+      rewrite nth_error_app1 by (rewrite flat1_length; cbn [snd]; lia).
+      unfold flat1. cbn [fst snd nth_error]. rewrite Ea, map_app.
+      rewrite nth_error_app2 by (rewrite map_length; lia). rewrite map_length, Nat.sub_diag. reflexivity. }
+    rewrite En. cbn [pd_arg from_name_and_arg].
+    rewrite Forall_forall in HF. destruct (HF _ (nth_error_In _ _ En)) as [_ Ha]. cbn [pd_arg from_name_and_arg] in Ha.
+    destruct a as [s l]. unfold span_ok in Ha. cbn [fst snd] in Ha. rewrite slice_chk_ok by lia. cbn [obind].
+    replace (S (S (length done))) with (S (length (done ++ [(s, l)]))) by (rewrite app_length; cbn [length]; lia).
+    rewrite (IH (done ++ [(s, l)]) fuel); [reflexivity|rewrite Ea, <- app_assoc; reflexivity|cbn [length] in Hf; lia].
+Qed.
+End Decode.
+
+Section Entries.
+Variable data : bytes.
+
+Lemma entries_flat exts : Forall (pd_ok (length data)) exts -> forall gl P, exts = P ++ flat gl ->
+  omap (fun pa => obind (pa_name data exts pa) (fun n =>
+                  obind (pa_args args_end data exts pa) (fun a => Ok (n, a)))) (spans_of (length P) gl)
+  = Ok (map (decode data) gl).
+Proof.
+  intros HF. induction gl as [|[n args] r IH]; intros P E; [reflexivity|].
+  cbn [spans_of omap snd].
+  assert (E' : exts = P ++ flat1 (n, args) ++ flat r) by (rewrite E, flat_cons; reflexivity).
+  assert (Hlen : length exts = (length P + S (length args) + length (flat r))%nat)
+    by (rewrite E', !app_length, flat1_length; cbn [snd]; lia).
+  assert (En : nth_error exts (length P) = Some (from_name_and_arg n n)).
+  { rewrite E'. rewrite nth_error_app2, Nat.sub_diag by lia. reflexivity. }
+  unfold pa_name at 1. cbn [fst]. rewrite En. cbn [pd_name from_name_and_arg].
+  pose proof HF as HF2. rewrite Forall_forall in HF2.
+  destruct (HF2 _ (nth_error_In _ _ En)) as [Hn _]. cbn [pd_name from_name_and_arg] in Hn.
+  destruct n as [s l]. unfold span_ok in Hn; cbn [fst snd] in Hn. rewrite slice_chk_ok by lia. cbn [obind].
+  unfold pa_args at 1. cbn [fst snd].
+  change 1%nat with (S (length (@nil span))) at 1.
+  rewrite (args_loop_flat data exts P (s, l) args (flat r) E' HF args [] (S (length exts)) eq_refl ltac:(lia)).
+  cbn [obind].
+  assert (El : (length P + S (length args))%nat = length (P ++ flat1 ((s, l), args))) by (rewrite app_length, flat1_length; reflexivity).
+  rewrite El. rewrite (IH (P ++ flat1 ((s, l), args))) by (rewrite E', app_assoc; reflexivity).
+  reflexivity.
+Qed.
+
+Lemma gw_decode : forall ws pre cur x, data = pre ++ render_words ws ++ x ->
+  map (decode data) (gw (length pre) cur ws) = group_words (option_map (decode data) cur) (nonempty_words ws).
+Proof.
+  induction ws as [|w r IH]; intros pre cur x Hd.
+  - cbn [gw nonempty_words filter group_words]. destruct cur; reflexivity.
+  - assert (Hrec : forall cur', map (decode data) (gw (length pre + length w + 1) cur' r)
+                               = group_words (option_map (decode data) cur') (nonempty_words r)).
+    { intros cur'. destruct r as [|w2 r2]; [cbn [gw nonempty_words filter group_words]; destruct cur'; reflexivity|].
+      replace (length pre + length w + 1)%nat with (length (pre ++ w ++ [SPACE])) by (rewrite !app_length; cbn [length]; lia).
+      apply (IH (pre ++ w ++ [SPACE]) cur' x). rewrite Hd, render_words_cons. repeat rewrite <- app_assoc. reflexivity. }
+    assert (Hdec : dec data (length pre, length w) = w).
+    { unfold dec. cbn [fst snd]. rewrite Hd. destruct r as [|w2 r2].
+      - cbn [render_words]. apply slice_word.
+      - rewrite render_words_cons, <- app_assoc. apply slice_word. }
+    cbn [gw]. destruct w as [|c w']; [apply Hrec|].
+    set (w := c :: w') in *.
+    change (nonempty_words (w :: r)) with (w :: nonempty_words r). cbn [group_words].
+    destruct (beq w PRESENT_INTERNAL_AND_TRIMMED).
+    + rewrite map_app, Hrec. destruct cur as [g|]; reflexivity.
+    + rewrite Hrec. destruct cur as [[n0 a0]|]; cbn [option_map push]; unfold decode; cbn [fst snd map].
+      * rewrite map_app. cbn [map]. rewrite Hdec. reflexivity.
+      * rewrite Hdec. reflexivity.
+Qed.
+End Entries.
+
+Definition ge_names (pos : nat) (L : list gs) : Prop := Forall (fun g => (pos <= fst (fst g))%nat) L.
+
+Lemma ge_names_weaken a b L : (a <= b)%nat -> ge_names b L -> ge_names a L.
+Proof. intros H HF. eapply Forall_impl; [|exact HF]. cbn. intros; lia. Qed.
+
+Lemma gw_sorted : forall ws pos cur,
+  (forall g, cur = Some g -> (fst (fst g) < pos)%nat) ->
+  StronglySorted name_lt (gw pos cur ws) /\
+  match cur with
+  | Some g0 => exists a L', gw pos cur ws = (fst g0, a) :: L' /\ ge_names pos L'
+  | None => ge_names pos (gw pos cur ws)
+  end.
+Proof.
+  induction ws as [|w r IH]; intros pos cur Hc; cbn [gw].
+  - destruct cur as [[n0 a0]|]; cbn [olist].
+    + split; [repeat constructor|]. exists a0, []. split; [reflexivity|constructor].
+    + split; constructor.
+  - set (next := (pos + length w + 1)%nat). assert (Hnext : (pos < next)%nat) by (unfold next; lia).
+    destruct w as [|c w'].
+    + destruct (IH next cur) as [S1 S2]; [intros g Hg; specialize (Hc g Hg); lia|].
+      split; [exact S1|]. destruct cur as [g0|].
+      * destruct S2 as (a & L' & E & G). exists a, L'. split; [exact E|]. apply (ge_names_weaken pos next); [lia|exact G].
+      * apply (ge_names_weaken pos next); [lia|exact S2].
+    + set (w := c :: w') in *. destruct (beq w PRESENT_INTERNAL_AND_TRIMMED).
+      * destruct (IH next None) as [S1 S2]; [intros g Hg; discriminate|].
+        destruct cur as [[n0 a0]|]; cbn [olist app].
+        -- specialize (Hc _ eq_refl). cbn [fst] in Hc. split.
+           ++ constructor; [exact S1|]. eapply Forall_impl; [|exact S2]. unfold name_lt. cbn [fst]. intros g Hg. cbv beta in Hg.
+              exact (Nat.lt_le_trans _ _ _ (Nat.lt_trans _ _ _ Hc Hnext) Hg).
+           ++ exists a0, (gw next None r). split; [reflexivity|]. apply (ge_names_weaken pos next); [lia|exact S2].
+        -- split; [exact S1|]. apply (ge_names_weaken pos next); [lia|exact S2].
+      * destruct (IH next (Some (push cur (pos, length w)))) as [S1 S2].
+        { intros g [= <-]. destruct cur as [[n0 a0]|]; cbn [push fst].
+          - specialize (Hc _ eq_refl). cbn [fst] in Hc. lia.
+          - lia. }
+        split; [exact S1|]. destruct S2 as (a & L' & E & G).
+        destruct cur as [[n0 a0]|]; cbn [push fst] in *.
+        -- exists a, L'. split; [exact E|]. apply (ge_names_weaken pos next); [lia|exact G].
+        -- rewrite E. constructor; [cbn [fst]; lia|]. apply (ge_names_weaken pos next); [lia|exact G].
+Qed.
+
+Lemma flat_length_ge gl : (length gl <= length (flat gl))%nat.
+Proof.
+  induction gl as [|g r IH]; [cbn; lia|]. rewrite flat_cons, app_length, flat1_length. cbn [length]. lia.
+Qed.
+
+Lemma starts_with_ext p : forall a c x d y, ~ In c p -> ~ In d p ->
+  starts_with p (a ++ c :: x) = starts_with p (a ++ d :: y).
+Proof.
+  induction p as [|b p IH]; intros a c x d y Hc Hd; [reflexivity|].
+  destruct a as [|e a]; cbn [app starts_with].
+  - destruct (N.eqb_spec b c) as [->|_]; [exfalso; apply Hc; left; reflexivity|].
+    destruct (N.eqb_spec b d) as [->|_]; [exfalso; apply Hd; left; reflexivity|]. reflexivity.
+  - f_equal. apply IH; intros H; [apply Hc|apply Hd]; right; exact H.
+Qed.
+
+(** ---- the theorem ---- *)
+Theorem present_line_grammar : forall (ws : list bytes) (crlf : bool) (rest : bytes),
+  line_words_ok ws ->
+  present_parse (render_line ws crlf ++ rest)
+  = Ok (Some {| p_entries := group_words None (nonempty_words ws);
+                p_data_start := length (render_line ws crlf);
+                p_body := rest |}).
+Proof.
+  intros ws crlf rest [HF Hand].
+  remember (render_line ws crlf ++ rest) as data eqn:Edata.
+  (* no word at all = one empty word *)
+  remember (match ws with [] => [[]] | _ => ws end) as ws' eqn:Ews'.
+  assert (Erw : render_words ws' = render_words ws) by (subst ws'; destruct ws; reflexivity).
+  assert (Ene : nonempty_words ws' = nonempty_words ws) by (subst ws'; destruct ws; reflexivity).
+  assert (HF' : Forall (fun w => word_ok w = true) ws') by (subst ws'; destruct ws; [repeat constructor|exact HF]).
+  assert (Hd : data = PRESENT_INTERNAL_PREFIX ++ render_words ws' ++ line_end crlf ++ rest).
+  { rewrite Edata. unfold render_line. rewrite Erw. repeat rewrite <- app_assoc. reflexivity. }
+  destruct ws' as [|w r]; [destruct ws; discriminate|]. clear Ews'.
+  set (gl := gw 3 None (w :: r)).
+  set (ds := (3 + length (render_words (w :: r)) + length (line_end crlf))%nat).
+  assert (Hds : ds = length (render_line ws crlf)).
+  { unfold ds, render_line. rewrite !app_length, Erw. reflexivity. }
+  assert (Hpe : pe_new data_start_fixed data = Ok (Some (flat gl, ds))).
+  { unfold pe_new.
+    assert (Hp : starts_with PRESENT_INTERNAL_PREFIX data = true) by (apply starts_with_app; eexists; exact Hd).
+    rewrite Hp. cbn [negb].
+    assert (Hl : (3 <= length data)%nat) by (rewrite Hd, app_length; cbn [length PRESENT_INTERNAL_PREFIX]; lia).
+    rewrite slice_chk_ok by lia. unfold slice. rewrite firstn_all2 by (rewrite skipn_length; lia).
+    assert (Hsk : skipn 3 data = render_words (w :: r) ++ line_end crlf ++ rest) by (rewrite Hd; reflexivity).
+    rewrite Hsk.
+    assert (Hno : starts_with PRESENT_INTERNAL_AND (render_words (w :: r) ++ line_end crlf ++ rest) = false).
+    { rewrite Erw. rewrite <- Hand. destruct crlf; cbn [line_end app].
+      - apply starts_with_ext; intros [H|[H|[H|[H|[]]]]]; discriminate.
+      - apply starts_with_ext; intros [H|[H|[H|[H|[]]]]]; discriminate. }
+    rewrite Hno.
+    exact (pe_words data _ (w :: r) (le_n _) w r eq_refl PRESENT_INTERNAL_PREFIX [] None false crlf rest Hd HF' (or_introl eq_refl)). }
+  assert (HFok : Forall (pd_ok (length data)) (flat gl)).
+  { destruct (pe_new_ok data) as (r0 & E0 & P0). rewrite Hpe in E0. inversion E0; subst r0. exact (proj1 P0). }
+  unfold present_parse, present_parse_with. rewrite Hpe.
+  assert (Hle : (ds <= length data)%nat) by (rewrite Hds, Edata, app_length; lia).
+  unfold split_off. destruct (Nat.ltb_spec (length data) ds); [lia|]. cbn [obind].
+  assert (Hsorted : StronglySorted name_lt gl) by (apply (gw_sorted (w :: r) 3%nat None); intros g Hg; discriminate).
+  pose proof (iter_all_flat gl [] (S (length (flat gl))) Hsorted ltac:(pose proof (flat_length_ge gl); lia)) as Hit.
+  cbn [app length] in Hit. rewrite Hit. cbn [obind].
+  pose proof (entries_flat data (flat gl) HFok gl [] eq_refl) as Hen. cbn [length] in Hen. rewrite Hen. cbn [obind].
+  do 2 f_equal. f_equal.
+  - pose proof (gw_decode data (w :: r) PRESENT_INTERNAL_PREFIX None (line_end crlf ++ rest) Hd) as Hg.
+    cbn [option_map] in Hg. rewrite <- Ene. exact Hg.
+  - exact Hds.
+  - rewrite Hds, Edata. rewrite skipn_app, skipn_all, Nat.sub_diag. reflexivity.
+Qed.
